@@ -685,6 +685,21 @@ func runC05(cx *CheckCtx) {
 		okExit, whyExit := everyElement(a, fee, nil)
 		cx.decide(okExit, "fee-loop", "container.PutNamed/no-early-exit", "the loop ends only when the keys are exhausted and every iteration pays", "not every Alphabet node is paid: "+whyExit, fee.Where(w))
 		okTo := isCall(to, "contract.CreateStandardAccount") && to.Args[0].Op == "elem" && keySource(tb, to.Args[0].Args[0]) == "committee"
+		// "an owner with sufficient balance": the put is refused for its balance only when the balance read
+		// from the Balance contract is below amount × number of paid keys (an owner holding exactly the fee pays)
+		if okTo {
+			var bal *Term
+			for _, s := range a.Sites(func(s *Site) bool { return s.Callee == "contract.Call" && len(s.Args) >= 2 }) {
+				if n, _ := s.Args[1].BytesConst(); n == "balanceOf" {
+					bal = s.Val
+				}
+			}
+			if bal != nil {
+				total := tb.binop(token.MUL, amt, tb.mk("len", "", 0, to.Args[0].Args[0]), intType)
+				nb, okBal := panicOnlyIf(a, m.Fn, bal, a.orderAxioms([2]*Term{bal, total}), a.litLt(bal, total))
+				cx.decide(nb > 0 && okBal, "fee-atomic", "container.PutNamed/sufficient", "refused for the balance only when balance < amount × number of Alphabet keys", "a put can be refused for 'insufficient balance' although the owner's balance covers amount × number of Alphabet keys (the boundary is off, or the product is taken over something else): an owner holding exactly the fee cannot register", fee.Where(w))
+			}
+		}
 		cx.decide(okTo, "fee-loop", "container.PutNamed/receiver", "to = standard account of each committee key", "the fee receiver is "+to.pretty()+", not the account of each Alphabet key", fee.Where(w))
 		// range over the whole list: index starts at 0 and steps by 1 (Go range) — the element index term
 		owner := ownerOfBlob(tb, blob)
